@@ -186,6 +186,7 @@ static PDU* make_layer(const LayerDesc& d) {
     if (n == "arp") return new ARP(ip4(d.hex("tpa", 4)), ip4(d.hex("spa", 4)));
     if (n == "raw") return new RawPDU(raw_payload(d.num("n", 4)));
     if (n == "other") return new LLC();
+    if (n == "sll") return new SLL();                      // keeps PDU::matches_response: never matches
     throw std::runtime_error("unknown layer " + n);
 }
 
